@@ -35,6 +35,7 @@ fn main() {
         i += 1;
     }
     match args[1].as_str() {
+        "macro-child" => std::process::exit(verif_core::macros_child::child_main()),
         "run" => {
             let id = pos.first().and_then(|s| props::static_id(s)).unwrap_or_else(|| usage());
             std::process::exit(run(id, tier, seed));
